@@ -247,6 +247,14 @@ YAML_NOT_STRING = re.compile(r"^(true|false|null|nan|inf|infinity)$", re.I)
 PRINTABLE = re.compile(r"^[^\x00-\x08\x0b-\x1f\x7f\x85\u2028\u2029\ufeff]*$")
 
 
+SPELLINGS = {}
+
+
+def spelled(fmt, how):
+    k = "%s:%s" % (fmt, how)
+    SPELLINGS[k] = SPELLINGS.get(k, 0) + 1
+
+
 def jstr(s, ascii_only=False):
     return json.dumps(s, ensure_ascii=ascii_only)
 
@@ -254,9 +262,12 @@ def jstr(s, ascii_only=False):
 def json_string(s, rng):
     """serde_json: always handed over through visit_str (reader input: nothing is borrowed); escapes vary"""
     if rng.random() < 0.3 and all(ord(c) < 0x10000 for c in s):
+        spelled("json", "string \\u escapes")
         return jstr(s, True)              # \uXXXX escapes
     if rng.random() < 0.15:
+        spelled("json", "string escaped solidus")
         return jstr(s).replace("/", "\\/")   # the optional solidus escape
+    spelled("json", "string with escapes" if "\\" in jstr(s) else "string plain")
     return jstr(s)
 
 
@@ -264,7 +275,9 @@ def json5_string(s, rng):
     """json5: visit_string (owned); double or single quotes, JS escapes"""
     body = jstr(s)[1:-1]
     if rng.random() < 0.45:
+        spelled("json5", "string single-quoted")
         return "'" + body.replace('\\"', '"').replace("'", "\\'") + "'"
+    spelled("json5", "string double-quoted")
     return '"' + body + '"'
 
 
@@ -283,6 +296,7 @@ def yaml_string(s, rng, flow=False, ind=0):
         if len(lines) == 1 and not s.endswith(" ") and not s.endswith("\t"):
             opts.append("folded")
     o = rng.choice(opts)
+    spelled("yaml", "string " + o)
     if o == "dq":
         return jstr(s)
     if o == "sq":
@@ -302,7 +316,9 @@ def num_spelling(v, fmt, rng):
             opts += ["+%d" % n, "0x%X" % n, "0x%x" % n]
         if fmt == "yaml" and n > 0:
             opts += ["+%d" % n, "0x%x" % n, "0o%o" % n]
-        return rng.choice(opts)
+        o = rng.choice(opts)
+        spelled(fmt, "int " + ("hex" if "x" in o else "octal" if "o" in o else "signed" if o[0] in "+-" else "plain"))
+        return o
     x = float(v[1])
     opts = [repr(x), "%e" % x if float("%e" % x) == x else repr(x), ("%E" % x) if float("%E" % x) == x else repr(x)]
     if fmt in ("json5", "yaml") and x > 0:
@@ -311,7 +327,9 @@ def num_spelling(v, fmt, rng):
         opts.append("%d." % int(x))
     if fmt in ("json5", "yaml") and 0 < abs(x) < 1 and repr(x).replace("-", "").startswith("0."):
         opts.append(repr(x).replace("0.", ".", 1))
-    return rng.choice(opts)
+    o = rng.choice(opts)
+    spelled(fmt, "float " + ("exponent" if "e" in o.lower() else "no leading/trailing digit" if o.endswith(".") or o.lstrip("+-").startswith(".") else "decimal"))
+    return o
 
 
 def seq_spelling(el, fmt, rng, flow=True):
@@ -342,6 +360,7 @@ def scalar(v, fmt, rng, ind=0):
             return rng.choice(["true", "True", "TRUE"] if v[1] else ["false", "False", "FALSE"])
         return "true" if v[1] else "false"
     if v[0] == "null":
+        spelled(fmt, "null")
         return rng.choice(["null", "~", "Null", "NULL", ""]) if fmt == "yaml" else "null"
     if v[0] == "seq":
         return seq_spelling(v[1], fmt, rng)
@@ -757,6 +776,14 @@ def describe(proj, run):
 
 
 CORPUS = [
+    # values that are only a component / an interpolation in a whitespace variant, near-misses; strings that look like other types
+    {"locales": ["en"], "units": [{"ns": None, "trees": [
+        [("c1", ("str", "<b>x< /b>")), ("c2", ("str", "< b >x</ b >")), ("c3", ("str", "<b\t>x<\t/b>")), ("c4", ("str", "<\u00a0b>x<\u3000/\u00a0b\u3000>")),
+         ("c5", ("str", "<b>x</b >")), ("c6", ("str", "<b>x</c>")), ("c7", ("str", "<b/>x")), ("c8", ("str", "a < b > c")),
+         ("v1", ("str", "{{x}}")), ("v2", ("str", "{{  x , number }}")), ("v3", ("str", "{{\u00a0x\u3000}}")), ("v4", ("str", "{ {x} }")),
+         ("r1", ("seq", [["<b>x< /b>", 0], ["{{count}}", "0x1"], ["< i >y</ i >"]])),
+         ("n1", ("int", 16)), ("n2", ("int", 255)), ("f1", ("float", 100.0)), ("f2", ("float", 0.5)), ("f3", ("float", 5.0)), ("t", ("bool", True))]
+        + [("l%d" % i, ("str", t)) for i, t in enumerate(LOOKALIKES)]]}], "fault": None},
     # two distinct member names that denote the same key after Key::new's trim
     {"locales": ["en"], "units": [{"ns": None, "trees": [[("a", ("str", "first")), (" a", ("str", "second"))]]}], "fault": "colliding-keys"},
     {"locales": ["en", "fr"], "units": [{"ns": None, "trees": [
@@ -784,9 +811,18 @@ def run(ctx):
     for fmt in FORMATS:
         bindirs[fmt] = core.cargo_build("h_order", features=[fmt], target_sub="target_order_%s" % fmt)
     ok, problems = core.coq_audit(ctx, PROPS, THEOREMS)
-    root = os.path.join(ctx.work, "projects")
+    # one directory per invocation: two checks running at the same time must not share project directories
+    root = os.path.join(ctx.work, "projects_s%d_%s_%d" % (ctx.seed, ctx.tier, os.getpid()))
     shutil.rmtree(root, ignore_errors=True)
     os.makedirs(root)
+    try:
+        _run(ctx, bindirs, ok, problems, root)
+    finally:
+        shutil.rmtree(root, ignore_errors=True)
+
+
+def _run(ctx, bindirs, ok, problems, root):
+    from concurrent.futures import ThreadPoolExecutor
     nproj = 90 if ctx.quick else 500
     k_orders = 1 if ctx.quick else 3
     projects = [json.loads(json.dumps(p)) for p in CORPUS]
@@ -827,7 +863,7 @@ def run(ctx):
             except OutOfDomain as e:
                 key = re.sub(r"\(.*", "", str(e))[:50]
                 ood[key] = ood.get(key, 0) + 1
-    codes = core.coq_eval(ctx, "c10", PRE, items, "check", min_per_shard=10)
+    codes = core.coq_eval(ctx, "c10_%d" % os.getpid(), PRE, items, "check", min_per_shard=10)
     bad3 = [m for m, c in zip(meta, codes) if c == 3]
     dis = [m for m, c in zip(meta, codes) if c == 2]
     skipped = sum(1 for c in codes if c == 1)
@@ -863,12 +899,19 @@ def run(ctx):
     core.write_evidence(ctx, {
         "evaluations": len(results), "distinct_nontrivial": nontrivial,
         "projects": len(projects), "loads_in_fresh_processes": len(results), "codegen_runs": sum(1 for r in results if r["codegen"]),
+        "spellings_written": dict(sorted(SPELLINGS.items())),
         "coq_cases": len(items), "coq_codes": {str(c): codes.count(c) for c in sorted(set(codes))},
         "coq_codes_2_3_by_fault": {"%d/%s" % (c, projects[m[0]].get("fault")): sum(1 for mm, cc in zip(meta, codes) if cc == c and
                                    projects[mm[0]].get("fault") == projects[m[0]].get("fault")) for m, c in zip(meta, codes) if c in (2, 3)},
-        "rule": "corpus (colliding member names, repository-style sample) then random abstract projects (1-4 locales, optional "
-                "namespaces, nested subkeys, strings with variables/components/unicode/quotes, ints, floats, bools, null, range "
-                "sequences, plural groups in 30% of the projects, one injected fault in 15%); each written as JSON, YAML and JSON5 "
+        "rule": "corpus (whitespace-variant components/interpolations and type look-alike strings, colliding member names, "
+                "repository-style sample) then random abstract projects (1-4 locales, optional namespaces, nested subkeys, strings with "
+                "variables/components in every whitespace variant the grammar tolerates (space, tab, U+00A0, U+3000 after `<`, around `/`, "
+                "before `>`, inside `{{ }}`), values that are only a component, near-misses, look-alikes (yes, 012, ~, 0x10, 1e2 ...), "
+                "multi-line strings, ints, floats, bools, null, range sequences; every value spelled per format in a random legal way "
+                "(JSON escapes; JSON5 single quotes, unquoted keys, +n, hex, `.5`, `5.`, trailing commas, comments; YAML plain / single / "
+                "double quoted / literal and folded block scalars, True/NULL/~/empty, hex, octal, block and flow sequences) so that "
+                "visit_str, visit_string, visit_i64/u64/f64, visit_bool, visit_unit, visit_seq and visit_map are reached in every format "
+                "that can produce them, plural groups in 30% of the projects, one injected fault in 15%); each written as JSON, YAML and JSON5 "
                 "in sorted, reversed and random member orders (every nesting level permuted), every load and every code generation "
                 "in a fresh process; non-trivial = at least 12 members; compared: full dump + token stream within a format, "
                 "keys/diagnostics/values(numeric types normalised)/string tables across formats; Coq cases = (json sorted, X) pairs",
@@ -907,7 +950,7 @@ def replay(ctx, path):
         return 0
     bindirs = {fmt: core.cargo_build("h_order", features=[fmt], target_sub="target_order_%s" % fmt) for fmt in FORMATS}
     proj = _tuplify(fi["project"])
-    root = os.path.join(ctx.work, "replay")
+    root = os.path.join(ctx.work, "replay_%d" % os.getpid())
     rc = 0
 
     def order_of(s):
@@ -921,7 +964,7 @@ def replay(ctx, path):
     print("implementation: the two runs are", "identical" if same else "DIFFERENT")
     try:
         items = coq_cases(proj, (ra["trees"], ra["dump"]), (rb["trees"], rb["dump"]))
-        codes = core.coq_eval(ctx, "c10r", PRE, items, "check", min_per_shard=10)
+        codes = core.coq_eval(ctx, "c10r_%d" % os.getpid(), PRE, items, "check", min_per_shard=10)
         print("Coq check codes per unit (0 ok, 1 unmodelled, 2 model differs, 3 spec violated):", codes)
         print("model on run A's files:", core.coq_show(ctx, PRE, "model_result (c_A %s)" % items[0])[:1500])
         if 3 in codes:
